@@ -43,11 +43,12 @@ Record shard := mkShard {
   wcnt : N;                              (* writer: entries_written *)
   wunlinked : bool;                      (* the writer's open file was deleted under it *)
   alloc0 : N;                            (* next level-0 segment offset *)
-  jobs : list job                        (* flush queue, head = job being processed *)
+  jobs : list job;                       (* flush queue, head = job being processed *)
+  wlost : list event                     (* ghost: entries whose WAL write went to an unlinked file *)
 }.
 
 Definition init (c : N) : shard :=
-  mkShard c [] [] [] [] [] [] [] [(0, [])] 0 0 false 0 [].
+  mkShard c [] [] [] [] [] [] [] [(0, [])] 0 0 false 0 [] [].
 
 (** ** helpers *)
 Definition memb (x : N) (l : list N) : bool := existsb (N.eqb x) l.
@@ -85,12 +86,12 @@ Definition rotate (s : shard) : shard :=
   let seg := alloc0 s in
   mkShard (cap s) [] (passives s ++ [(seg, mem s)]) (inflight s) (live s) (dirs s) (index s)
           (walq s) (walfiles s) (wcur s) (wcnt s) (wunlinked s) (N.succ seg)
-          (jobs s ++ [mkJob seg (mem s) StQueued]).
+          (jobs s ++ [mkJob seg (mem s) StQueued]) (wlost s).
 
 (** STORE applied on the shard: WAL send, memtable insert, rotation when full. *)
 Definition store (s : shard) (e : event) : shard :=
   let s1 := mkShard (cap s) (mem s ++ [e]) (passives s) (inflight s) (live s) (dirs s) (index s)
-                    (walq s ++ [e]) (walfiles s) (wcur s) (wcnt s) (wunlinked s) (alloc0 s) (jobs s) in
+                    (walq s ++ [e]) (walfiles s) (wcur s) (wcnt s) (wunlinked s) (alloc0 s) (jobs s) (wlost s) in
   if cap s <=? len (mem s1) then rotate s1 else s1.
 
 (** manual FLUSH: rotation happens unconditionally (also for an empty memtable). *)
@@ -137,6 +138,7 @@ Definition wal_write (s : shard) : shard :=
       let files1 := if wunlinked s then walfiles s else wal_append (walfiles s) (wcur s) e in
       mkShard (cap s) (mem s) (passives s) (inflight s) (live s) (dirs s) (index s)
               q files1 (wcur s) (N.succ (wcnt s)) (wunlinked s) (alloc0 s) (jobs s)
+              (if wunlinked s then wlost s ++ [e] else wlost s)
   end.
 
 (** The WAL thread rotates right after a write when [entries_written >= cap]:
@@ -147,14 +149,14 @@ Definition wal_rotate (s : shard) : shard :=
     let cur2 := N.succ (wcur s) in
     let files2 := wal_touch (walfiles s) cur2 in
     mkShard (cap s) (mem s) (passives s) (inflight s) (live s) (dirs s) (index s)
-            (walq s) files2 cur2 (wal_count_entries files2) false (alloc0 s) (jobs s)
+            (walq s) files2 cur2 (wal_count_entries files2) false (alloc0 s) (jobs s) (wlost s)
   else s.
 
 (** ** background flush: the head job advances one stage per label *)
 
 Definition set_jobs (s : shard) (j : list job) : shard :=
   mkShard (cap s) (mem s) (passives s) (inflight s) (live s) (dirs s) (index s)
-          (walq s) (walfiles s) (wcur s) (wcnt s) (wunlinked s) (alloc0 s) j.
+          (walq s) (walfiles s) (wcur s) (wcnt s) (wunlinked s) (alloc0 s) j (wlost s).
 
 Definition clear_passive (ps : list (N * list event)) (seg : N) : list (N * list event) :=
   map (fun p => if fst p =? seg then (fst p, []) else p) ps.
@@ -171,6 +173,13 @@ Fixpoint dir_add_rows (ds : list segdir) (seg : N) (rows : list event) : list se
 Definition dir_has_uid (s : shard) (seg u : N) : bool :=
   existsb (fun d => (sid d =? seg) && existsb (fun e => euid e =? u) (srows d)) (dirs s).
 
+(** ghost bookkeeping for C01: the entries of a deleted log file that are in no
+    segment directory at that moment are no longer recoverable after a crash *)
+Definition in_dirs (ds : list segdir) (e : event) : bool :=
+  existsb (fun d => existsb (ev_eqb e) (srows d)) ds.
+Definition pruned_unsaved (ds : list segdir) (deleted : list (N * list event)) : list event :=
+  filter (fun e => negb (in_dirs ds e)) (concat (map snd deleted)).
+
 Inductive fwlabel := FwBegin | FwMkdir | FwWrite (u : N) | FwIndex | FwPublish | FwClear | FwWalDel (id : N) | FwWalClean | FwDone.
 
 Definition is_empty {A} (l : list A) : bool := match l with [] => true | _ => false end.
@@ -184,36 +193,36 @@ Definition fw_step (s : shard) (l : fwlabel) : shard :=
       match l, jstage j with
       | FwBegin, StQueued =>
           mkShard (cap s) (mem s) (passives s) (inflight s ++ [seg]) (live s) (dirs s) (index s)
-                  (walq s) (walfiles s) (wcur s) (wcnt s) (wunlinked s) (alloc0 s) (adv StBegun)
+                  (walq s) (walfiles s) (wcur s) (wcnt s) (wunlinked s) (alloc0 s) (adv StBegun) (wlost s)
       | FwMkdir, StBegun =>
           mkShard (cap s) (mem s) (passives s) (inflight s) (live s)
                   (dir_add_rows (dirs s) seg []) (index s)
-                  (walq s) (walfiles s) (wcur s) (wcnt s) (wunlinked s) (alloc0 s) (jobs s)
+                  (walq s) (walfiles s) (wcur s) (wcnt s) (wunlinked s) (alloc0 s) (jobs s) (wlost s)
       | FwWrite u, StBegun =>
           (* the files of one event type are written (the directory is created first);
              each type of the rotated memtable is written exactly once *)
           if negb (memb u (uids_of (jevs j))) || dir_has_uid s seg u then s else
           mkShard (cap s) (mem s) (passives s) (inflight s) (live s)
                   (dir_add_rows (dirs s) seg (filter (fun e => euid e =? u) (flush_order (jevs j)))) (index s)
-                  (walq s) (walfiles s) (wcur s) (wcnt s) (wunlinked s) (alloc0 s) (jobs s)
+                  (walq s) (walfiles s) (wcur s) (wcnt s) (wunlinked s) (alloc0 s) (jobs s) (wlost s)
       | FwIndex, StBegun =>
           (* the index entry is added after every type has been written *)
           if is_empty (jevs j) || negb (forallb (dir_has_uid s seg) (uids_of (jevs j))) then s
           else
             mkShard (cap s) (mem s) (passives s) (inflight s) (live s) (dirs s)
                     (index s ++ [(seg, uids_of (jevs j))])
-                    (walq s) (walfiles s) (wcur s) (wcnt s) (wunlinked s) (alloc0 s) (adv StIndexed)
+                    (walq s) (walfiles s) (wcur s) (wcnt s) (wunlinked s) (alloc0 s) (adv StIndexed) (wlost s)
       | FwPublish, StIndexed =>
           if is_empty (jevs j) then set_jobs s (adv StPublished)
           else
             mkShard (cap s) (mem s) (passives s) (inflight s)
                     (if memb seg (live s) then live s else live s ++ [seg]) (dirs s) (index s)
-                    (walq s) (walfiles s) (wcur s) (wcnt s) (wunlinked s) (alloc0 s) (adv StPublished)
+                    (walq s) (walfiles s) (wcur s) (wcnt s) (wunlinked s) (alloc0 s) (adv StPublished) (wlost s)
       | FwClear, StPublished =>
           if is_empty (jevs j) then set_jobs s (adv StCleared)
           else
             mkShard (cap s) (mem s) (clear_passive (passives s) seg) (inflight s) (live s) (dirs s) (index s)
-                    (walq s) (walfiles s) (wcur s) (wcnt s) (wunlinked s) (alloc0 s) (adv StCleared)
+                    (walq s) (walfiles s) (wcur s) (wcnt s) (wunlinked s) (alloc0 s) (adv StCleared) (wlost s)
       | FwWalDel id, StCleared =>
           (* one obsolete log file is deleted *)
           if is_empty (jevs j) || negb (id <? N.succ seg) then s
@@ -222,6 +231,7 @@ Definition fw_step (s : shard) (l : fwlabel) : shard :=
             let unl := wunlinked s || (wcur s =? id) in
             mkShard (cap s) (mem s) (passives s) (inflight s) (live s) (dirs s) (index s)
                     (walq s) files' (wcur s) (wcnt s) unl (alloc0 s) (jobs s)
+                    (wlost s ++ pruned_unsaved (dirs s) (filter (fun f => fst f =? id) (walfiles s)))
       | FwWalClean, StCleared =>
           if is_empty (jevs j) then set_jobs s (adv StWalCleaned)
           else
@@ -230,15 +240,16 @@ Definition fw_step (s : shard) (l : fwlabel) : shard :=
             let unl := wunlinked s || ((wcur s <? keep) && negb (is_empty (filter (fun f => fst f =? wcur s) (walfiles s)))) in
             mkShard (cap s) (mem s) (passives s) (inflight s) (live s) (dirs s) (index s)
                     (walq s) files' (wcur s) (wcnt s) unl (alloc0 s) (adv StWalCleaned)
+                    (wlost s ++ pruned_unsaved (dirs s) (filter (fun f => fst f <? keep) (walfiles s)))
       | FwDone, StBegun =>
           (* an empty memtable: the worker returns right after the (no-op) flush *)
           if is_empty (jevs j) then
             mkShard (cap s) (mem s) (passives s) (remove_n seg (inflight s)) (live s) (dirs s) (index s)
-                    (walq s) (walfiles s) (wcur s) (wcnt s) (wunlinked s) (alloc0 s) rest
+                    (walq s) (walfiles s) (wcur s) (wcnt s) (wunlinked s) (alloc0 s) rest (wlost s)
           else s
       | FwDone, StWalCleaned =>
           mkShard (cap s) (mem s) (passives s) (remove_n seg (inflight s)) (live s) (dirs s) (index s)
-                  (walq s) (walfiles s) (wcur s) (wcnt s) (wunlinked s) (alloc0 s) rest
+                  (walq s) (walfiles s) (wcur s) (wcnt s) (wunlinked s) (alloc0 s) rest (wlost s)
       | _, _ => s
       end
   end.
@@ -248,7 +259,7 @@ Definition fw_step (s : shard) (l : fwlabel) : shard :=
 (** A process crash loses everything volatile. With [flush_each_write] every
     written WAL entry is already in the file. *)
 Definition crash (s : shard) : shard :=
-  mkShard (cap s) [] [] [] [] (dirs s) (index s) [] (walfiles s) (wcur s) (wcnt s) false (alloc0 s) [].
+  mkShard (cap s) [] [] [] [] (dirs s) (index s) [] (walfiles s) (wcur s) (wcnt s) false (alloc0 s) [] (wlost s).
 
 Definition level_span : N := 10000.
 
@@ -267,7 +278,7 @@ Definition restart (s : shard) : shard :=
   let cur := find_next_wal_id (cap s) (walfiles s) in
   let files' := wal_touch (walfiles s) cur in
   mkShard (cap s) (concat (map snd (walfiles s))) [] [] ids (dirs s) (index s)
-          [] files' cur (wal_count_entries files') false (alloc0_from ids) [].
+          [] files' cur (wal_count_entries files') false (alloc0_from ids) [] (wlost s).
 
 (** ** the labelled transition function *)
 
